@@ -574,7 +574,7 @@ def parseHStep (hp : HParse) (st : String) : HParse :=
     | .good a => { hp with aliases := hp.aliases ++ [(alias, a)] }
     | .bad e => { hp with err := hp.err <|> some e }
     | .absent => { hp with err := hp.err <|> some "bad-op" }
-  | ["V", pid, kind, scope] => { hp with ops := hp.ops ++ [.setProvider pid (kind != "bad" && kind != "badfalsy" && kind != "badstr") (parseScope scope)] }
+  | ["V", pid, kind, scope] => { hp with ops := hp.ops ++ [.setProvider pid (kind != "bad" && kind != "badfalsy" && kind != "badstr" && kind != "baddict") (parseScope scope)] }
   | ["S", pid, scope] => { hp with ops := hp.ops ++ [.setScope pid (parseScope scope)] }
   | ["D", fid, pid, params, ret, nested] =>
     let ps := (splitSemi params).map fun p =>
